@@ -28,6 +28,14 @@ func profiles(nodes int) []Profile {
 	faulty := w
 	faulty.Crash, faulty.Restart, faulty.Partition, faulty.Drop = 5, 8, 3, 10
 	three := []uint64{1, 2, 3}
+	specw := faulty
+	specw.Conf, specw.Compact, specw.Partition, specw.Drop = 0, 0, 0, 14
+	if nodes == -1 { // profiles inside the scope of EtcdRaft.tla (trace validation, B2)
+		return []Profile{
+			{"n3-spec", Options{N: 3, Voters: three}, specw},
+			{"n3-spec-one", Options{N: 3, Voters: three, MaxEnts: 1}, specw},
+		}
+	}
 	ps := []Profile{
 		{"n3", Options{N: 3, Voters: three}, noconf},
 		{"n3-one", Options{N: 3, Voters: three, MaxEnts: 1}, faulty},
